@@ -120,6 +120,7 @@ type vParty struct {
 	R     []vEntry  `json:"R"`
 	Net   []string  `json:"net"`
 	Fwd   []vFwd    `json:"fwd"`
+	Thaw  uint32    `json:"thaw"`
 }
 
 type vLine struct {
@@ -135,6 +136,8 @@ type vLine struct {
 	Type  string            `json:"type,omitempty"`
 	Opener string           `json:"opener,omitempty"`
 	Dust   map[string]int64  `json:"dust,omitempty"`
+	Thaw   uint32            `json:"thaw"`
+	NoDLP  int               `json:"nodlp"`
 	File  string            `json:"file,omitempty"`
 }
 
@@ -247,6 +250,7 @@ func vProject(lc *LightningChannel, out []vMsg) vParty {
 		Ridx: lc.updateLogs.Remote.logIndex, Rhtlc: lc.updateLogs.Remote.htlcCounter,
 		L: vProjectLog(lc.updateLogs.Local), R: vProjectLog(lc.updateLogs.Remote),
 		Net: []string{}, LC: []vCommit{}, RC: []vCommit{}, Fwd: vProjectFwd(lc),
+		Thaw: lc.channelState.ThawHeight,
 	}
 	for e := lc.commitChains.Local.commitments.Front(); e != nil; e = e.Next() {
 		p.LC = append(p.LC, vProjectCommit(lc, e.Value))
@@ -351,6 +355,7 @@ func vReload(lc *LightningChannel) (*LightningChannel, error) {
 	if err != nil || len(chans) != 1 {
 		return nil, fmt.Errorf("FetchOpenChannels: %v n=%d", err, len(chans))
 	}
+
 	return NewLightningChannel(lc.Signer, chans[0], lc.sigPool)
 }
 
@@ -428,6 +433,12 @@ func TestVerifChannelExec(t *testing.T) {
 		if err != nil {
 			t.Fatal(err)
 		}
+		// every third behaviour: channel_reestablish without the data-loss-protect fields
+		noDLP := (fi+int(verifkit.Seed()))%3 == 1
+		// lease fixtures get a real lease expiry through the orchestrator's overlay of
+		// lnwallet/test_utils.go (the stock fixture leaves it 0, which hides everything
+		// that depends on it); whatever the fixture wrote is what every reload must return
+		thaw := alice.channelState.ThawHeight
 		// alice is the fixture's initiator: she plays the model's opener
 		opener := evs[0].P
 		nonOpener := map[string]string{"A": "B", "B": "A"}[opener]
@@ -446,6 +457,7 @@ func TestVerifChannelExec(t *testing.T) {
 		npre := 0
 
 		out.Emit(vLine{vEv: vEv{A: "Reset", P: "A"}, Type: tname, Opener: opener, File: filepath.Base(f),
+			Thaw: thaw, NoDLP: map[bool]int{false: 0, true: 1}[noDLP],
 			Dust: map[string]int64{
 				opener:    int64(alice.channelState.LocalChanCfg.DustLimit),
 				nonOpener: int64(bob.channelState.LocalChanCfg.DustLimit)},
@@ -597,6 +609,12 @@ func TestVerifChannelExec(t *testing.T) {
 							nonce = m.LocalNonce.UnwrapOrFailV(t)
 						}
 						me.lc.pendingVerificationNonce = &musig2.Nonces{PubNonce: nonce}
+					}
+					if noDLP {
+						// an honest peer that does not send the optional
+						// data-loss-protect fields
+						m.LocalUnrevokedCommitPoint = nil
+						m.LastRemoteCommitSecret = [32]byte{}
 					}
 					me.out = append(me.out, vMsg{kind: "reest", reest: m})
 				}
